@@ -18,6 +18,9 @@ from . import libops, netmodel as nm
 
 PROP = 'C17'
 LEVEL = 'exploration'
+COMPONENTS = {
+    'real': ['pgradd.RDkitWrapper.GenRxnNet.GenerateRxnNet', 'ReactionQuery + RING reader for RING-text rules', 'RDKit reactions and substructure matching'],
+    'stubs': ['clock (LINE-step counter restricted to GenRxnNet.py / ReactionQuery.py)', 'the schedule: order of rules, order of seeds, atom order of seed SMILES, rule text form', 'reference closure over hand-rolled labelled multigraphs (netmodel.py)']}
 ASSUMPTIONS = [
     'the reference closure (netmodel.py: labelled multigraphs with explicit '
     'hydrogens, rules as graph edits, valence filter = no atom above its '
